@@ -13,7 +13,16 @@ Two kinds of cases:
   derived (copy form / deepcopy) from the already observed one.  After every step the oracle is re-evaluated for the CURRENT
   geometry, which is taken from the primitive stored state only (region.pmin / pmax / dims / units read back, n = shape of the
   value array); cell, dV, edges, sums are recomputed here.  Anything the library derived and kept (cell volume, cell, edges,
-  index maps, integrals, means) would be stale against it."""
+  index maps, integrals, means) would be stale against it.
+
+Field dtype ("dtype" / "dtype-history" cases): the same clauses for fields created with the documented `dtype=` keyword (signed /
+unsigned integers of every width, bool, single / double / extended floats, single / double complex; handed over as numpy type,
+string, np.dtype or python type), for integer / Boolean / single-precision / complex data handed over WITHOUT the keyword (typed
+arrays, nested python lists, a constant, a callable), optionally with the `valid=` and `unit=` keywords.  The oracle is computed
+here in float64 (complex128) from a copy of the values the field actually stores, with the property's formulas: an integral, a
+cumulative integral (half-cell term) or a mean of an integer field is a real number - nothing may be truncated, wrapped or cast to
+the field's dtype.  Tolerance: `==` in the exact variant for integer / bool / float64 storage, else 64 ulp of double; 64 ulp of
+SINGLE precision only when the field itself stores single-precision (float32 / complex64) numbers, 64 ulp of half for float16."""
 import copy
 import itertools
 import numpy as np
@@ -22,15 +31,15 @@ from .common import raises, ulp_close
 
 PROPERTY = "C06"
 CLAUSES = {
-    "C06.volume": "integrate() == (sum of the cell values over all cell axes, per component) * prod(cell); a numpy array of shape (nvdim,); discretisedfield.integrate(f) is the same",
+    "C06.volume": "integrate() == (sum of the cell values over all cell axes, per component) * prod(cell); a numpy array of shape (nvdim,); discretisedfield.integrate(f) is the same; for every field dtype (int / uint / bool / float32 / complex ... requested with dtype= or implied by the data) the number is the float64 / complex128 value of that formula for the stored values: not truncated, wrapped or cast to the field's dtype (64 ulp of double; of single only for fields storing single precision)",
     "C06.fubini": "integrating direction by direction, in every order of the directions, ends in the same numbers as integrate() (64 ulp of sum|v|*dV, == in the exact variant)",
-    "C06.directional": "integrate(d).array == sum along axis d * cell_d (plain array of shape (nvdim,) on a 1-d mesh)",
+    "C06.directional": "integrate(d).array == sum along axis d * cell_d (plain array of shape (nvdim,) on a 1-d mesh); a real (complex) number for every field dtype, non-integer for an integer field on non-integer cells",
     "C06.axis_removed": "the result of integrate(d) / mean(d) / mean([..]) lives on the mesh with exactly those axes removed: remaining dims, units, n, pmin, pmax, cell in the original order; cumulative integrals keep the full mesh",
-    "C06.cumulative": "integrate(d, cumulative=True)[i] == cell_d * (sum_{k<i} v_k + v_i / 2) for every cell, on the unchanged mesh; cumulative without a direction is refused (ValueError)",
+    "C06.cumulative": "integrate(d, cumulative=True)[i] == cell_d * (sum_{k<i} v_k + v_i / 2) for every cell, on the unchanged mesh; cumulative without a direction is refused (ValueError); the half-cell term makes it non-integer for integer fields: same oracle in float64 / complex128 for every field dtype",
     "C06.cumulative_last": "last cumulative entry + cell_d * (last cell value) / 2 == integrate(d)",
     "C06.mean": "mean() == integrate()/prod(edges); mean(d) == integrate(d)/edge_d; mean([d1..dk]) (list or tuple, any order, any non-empty subset) == iterated integral / prod of the integrated edges; all directions -> plain array",
     "C06.mean_duplicates": "a direction list with a repeated direction is rejected (ValueError)",
-    "C06.linearity": "integrate / cumulative / mean of a*f+b*g == a*(..f) + b*(..g) within 64 ulp of the operand scale",
+    "C06.linearity": "integrate / cumulative / mean of a*f+b*g == a*(..f) + b*(..g) within 64 ulp of the operand scale (integer coefficients and a representable combination for integer / bool fields, complex coefficients for complex fields)",
     "C06.per_component": "every component of the result equals the result for the scalar field holding that component alone",
     "C06.cell_volume": "read directly at every observation point: mesh.cell == (pmax - pmin)/n, mesh.dV == prod(cell), region.edges == pmax - pmin (4 ulp), mesh.n == shape of the value array",
     "C06.history": "observe/mutate/observe histories: after every in-place step (mesh/region scale, translate, rotate90 through any handle, Field.rotate90, renaming dims/units, overwriting the values) and every derivation of a new mesh from an observed one, all clauses above are stated again for the CURRENT geometry and values (reported under the clause concerned, sig history-after-<op>); this clause itself: the step did not raise and took effect (edges x |factor|, corners + vector, edges of the rotated pair swapped for odd k, new names / values read back; rtol 1e-9 of the coordinate scale) and left the mesh it was derived from untouched",
@@ -45,13 +54,24 @@ RULE = ("seeded meshes with 1-4 dims (n <= 6 per axis, anisotropic cells, rename
         "field.mesh, another field's mesh, the Region object, field.mesh.region), with a seeded ordered subset of the quantity groups "
         "(cell/dV attributes, volume, iterated, directional, cumulative, single-direction mean, other means) observed before the first "
         "step and all groups in a seeded order after each step; plus fixed histories; "
+        "field dtype: every dtype name of DTYPES (handed over as type / string / np.dtype / python type) x 1-4 dims x exact / general "
+        "geometry, values drawn representable in the dtype (small |v| <= 50 or half the integer range, so that narrow accumulation "
+        "would wrap), fractional power-of-two cells favoured in the exact variant; data classes of NODTYPE handed over without the "
+        "keyword; value forms array of the dtype / float64 array / typed array / nested lists / constant / callable; valid= and unit= "
+        "keywords of the field, bc= (periodic axes / neumann / dirichlet) and subregions= keywords of the mesh on a seeded third each; every dtype also through a history; fixed dtype cases in every run; "
         "non-trivial = more than one cell; distinct by (kind, params)")
 ASSUMPTIONS = ["bounded: <= 6 cells per axis, <= 4 dims, <= 4 components, seeded values and geometry",
                "trusted: numpy.sum on the value array, Field construction from arrays",
                "histories: region.pmin / pmax / dims / units as read back after a step are the primitive state the oracle starts from "
                "(what the transformations do to them is C12/C13's business; here only a loose took-effect check); exact comparison is "
                "kept until the first rotate90 (cos(k pi/2) is not exactly 0), 64 ulp afterwards",
-               "histories: <= 4 steps, factors 2^-2..2^3 / 3 / 1.5 (exact) or 10^-2..10^2 (general), either sign"]
+               "histories: <= 4 steps, factors 2^-2..2^3 / 3 / 1.5 (exact) or 10^-2..10^2 (general), either sign",
+               "field dtype: the values a field stores (f.array read once right after construction / after a value step, copied, "
+               "converted to float64 / complex128) are the primitive state the oracle starts from - how a value specification is "
+               "turned into stored values is C02's business; integers |v| <= 2^40 so that every sum is exact in double",
+               "field dtype: rounding unit = double, except for fields that store single (half) precision numbers, where the "
+               "library's arithmetic in the field's own precision is accepted (64 ulp of float32 / float16): a cast of a result to "
+               "float32 is therefore not observable for float32 fields, it is for every integer / bool / double / complex128 field"]
 
 NAMES = ["a", "b", "c", "e", "g", "h", "k", "p", "q", "r", "s", "u", "w", "x", "y", "z"]
 UNITS = ["m", "s", "kg", "A", "K", "rad"]
@@ -59,12 +79,26 @@ VNAMES = ["p", "q", "r", "s", "u", "w", "ma", "mb", "e1", "e2"]
 SIG_MEAN1D = "mean-str-direction-on-1d-mesh-raises"
 
 
+# dtype name -> the ways it can be handed to Field(dtype=...)   ("py": the python type of that name)
+DTYPES = {"int64": ["type", "str", "dtype"], "int32": ["type", "str", "dtype"], "int16": ["type", "str", "dtype"],
+          "int8": ["type", "str", "dtype"], "uint8": ["type", "str", "dtype"], "uint16": ["type", "str"], "uint32": ["type", "dtype"],
+          "bool": ["type", "str", "dtype"], "float32": ["type", "str", "dtype"], "float64": ["type", "str", "dtype"],
+          "longdouble": ["type", "str"],
+          "complex128": ["type", "str", "dtype"], "complex64": ["type", "str", "dtype"],
+          "int": ["py"], "float": ["py"], "complex": ["py"], "bool_": ["py"]}
+PYTYPES = {"int": int, "float": float, "complex": complex, "bool_": bool}
+CANON = {"int": "int64", "float": "float64", "complex": "complex128", "bool_": "bool"}
+# data classes handed over WITHOUT the dtype keyword (integer / bool / single precision / complex data)
+NODTYPE = ["int64", "int32", "int8", "uint8", "bool", "float32", "complex128", "complex64"]
+FORMS = ["array", "wide", "typed", "list", "const", "callable"]
+
+
 GROUPS = ["attrs", "volume", "fubini", "dir", "cum", "mean1", "means"]
 VIAS = ["mesh", "field", "other-field", "region", "field-region"]
 EXACT_FACTORS = [0.25, 0.5, 2.0, 4.0, 8.0, 3.0, 1.5, -2.0, -0.5]
 
 
-def _base(rng, ndim, nvdim, exact, narrow=False):
+def _base(rng, ndim, nvdim, exact, narrow=False, frac=False):
     hi = {1: 8, 2: 6, 3: 5, 4: 4}[ndim]
     n = rng.integers(1, hi + 1, size=ndim).tolist()
     if max(n) == 1:
@@ -72,7 +106,7 @@ def _base(rng, ndim, nvdim, exact, narrow=False):
     dims = [str(d) for d in rng.choice(NAMES, size=ndim, replace=False)]
     units = [str(u) for u in rng.choice(UNITS, size=ndim, replace=False)]
     if exact:
-        cell = (2.0 ** rng.integers(-4, 5, size=ndim)).tolist()
+        cell = (2.0 ** (rng.integers(-5, 1, size=ndim) if frac else rng.integers(-4, 5, size=ndim))).tolist()
         p1 = (np.array(cell) * rng.integers(-6, 7, size=ndim)).tolist()
         shift = (np.array(cell) * rng.integers(-9, 10, size=ndim)).tolist()
     else:
@@ -108,6 +142,87 @@ def cases(ctx):
                 for _ in range(hreps):
                     yield "history", _history(rng, ndim, nvdim, exact)
     yield from _fixed_histories()
+    # ---------------- field dtype (keyword or implied by the data), valid= / unit= keywords
+    dreps = 2 if ctx.tier == "quick" else 8
+    for name in DTYPES:
+        for ndim in (1, 2, 3, 4):
+            for exact in (True, False):
+                for _ in range(dreps):
+                    yield "dtype", _dtyped(rng, _base(rng, ndim, int(rng.integers(1, 5)), exact, frac=rng.random() < 0.7), name)
+    for vals in NODTYPE:
+        for ndim in (1, 2, 3, 4):
+            for _ in range(dreps // 2):
+                yield "dtype", _dtyped(rng, _base(rng, ndim, int(rng.integers(1, 5)), bool(rng.random() < 0.5), frac=True), None, vals)
+    for name in list(DTYPES) + [None] * 4:
+        for _ in range(dreps // 2):
+            ndim = int(rng.integers(1, 5))
+            nvdim = 1 if rng.random() < 0.5 else int(rng.integers(2, 5))
+            pr = _history(rng, ndim, nvdim, bool(rng.random() < 0.5), frac=True)
+            vals = None if name is not None else str(rng.choice(NODTYPE))
+            yield "dtype-history", _dtyped(rng, pr, name, vals, forms=FORMS[:4])
+    yield from _fixed_dtype()
+
+
+def _dtyped(rng, pr, name, vals=None, forms=FORMS):
+    """add the dtype keyword `name` (None: no keyword, data of class `vals`), a value form, an amplitude, optional valid / unit"""
+    if name is not None:
+        pr["dtype"] = {"name": name, "as": str(rng.choice(DTYPES[name]))}
+        vals = CANON.get(name, name)
+    pr["vals"] = vals
+    kind = np.dtype(vals).kind
+    ok = [f for f in forms if not (f == "callable" and name is None and kind == "c")]
+    if name is None:
+        ok = [f for f in ok if f not in ("array", "wide")]     # a float64 array without the keyword is the legacy case
+    pr["vform"] = str(rng.choice(ok))
+    pr["amp"] = "small" if rng.random() < 0.6 else "full"
+    if rng.random() < 0.33:
+        pr["valid_seed"] = int(rng.integers(1 << 30))
+        pr["unit"] = str(rng.choice(["T", "A/m", "J/m3"]))
+    if "steps" not in pr and rng.random() < 0.3:        # mesh keywords (what transformations do to them is not this property's business)
+        k = int(rng.integers(1, len(pr["dims"]) + 1))
+        pr["bc"] = str(rng.choice(["".join(str(c) for c in rng.choice(pr["dims"], size=k, replace=False)), "neumann", "dirichlet"], p=[0.6, 0.2, 0.2]))
+    if "steps" not in pr and rng.random() < 0.3:
+        i0 = [int(rng.integers(0, k)) for k in pr["n"]]
+        pr["sub"] = {"r%d" % rng.integers(10): [i0, [int(rng.integers(a + 1, k + 1)) for a, k in zip(i0, pr["n"])]]}
+    return pr
+
+
+def _fixed_dtype():
+    """the statement's own example shapes for the main dtypes in every run, whatever the seed: fractional (non power-of-two and
+    power-of-two) cells, small integers, every value form once"""
+    b3 = {"n": [3, 4, 3], "cell": [0.5, 0.25, 0.25], "p1": [0.0, 0.0, 0.0], "flip": [0, 0, 0], "dims": ["x", "y", "z"],
+          "units": ["m", "m", "m"], "nvdim": 2, "vdims": None, "exact": True, "shift": [1.0, -0.5, 0.25], "amp": "small"}
+    g2 = {"n": [5, 2], "cell": [0.3, 0.35], "p1": [-0.1, 0.2], "flip": [1, 0], "dims": ["a", "b"], "units": ["m", "s"], "nvdim": 3,
+          "vdims": ["p", "q", "r"], "exact": False, "shift": [0.7, -1.3], "amp": "small"}
+    g1 = {"n": [6], "cell": [1.0], "p1": [0.0], "flip": [0], "dims": ["t"], "units": ["s"], "nvdim": 1, "vdims": None, "exact": True,
+          "shift": [3.0], "amp": "full"}
+    k = 0
+    for name, how in (("int64", "type"), ("int32", "type"), ("int", "py"), ("int8", "str"), ("uint8", "dtype"), ("bool_", "py"),
+                      ("float32", "type"), ("float64", "type"), ("complex128", "type"), ("complex", "py")):
+        for b in (b3, g2, g1):
+            k += 1
+            yield "dtype", dict(b, dtype={"name": name, "as": how}, vals=CANON.get(name, name), vform=FORMS[k % 4], seed=100 + k)
+    for vals, form in (("int64", "typed"), ("int64", "list"), ("int32", "typed"), ("bool", "list"), ("int64", "const"),
+                       ("int64", "callable"), ("complex128", "typed")):
+        for b in (b3, g2):
+            k += 1
+            yield "dtype", dict(b, vals=vals, vform=form, seed=100 + k)
+    yield "dtype", dict(g2, dtype={"name": "int64", "as": "type"}, vals="int64", vform="const", seed=201)
+    yield "dtype", dict(b3, dtype={"name": "int32", "as": "str"}, vals="int32", vform="callable", seed=202)
+    yield "dtype", dict(b3, dtype={"name": "int64", "as": "type"}, vals="int64", vform="array", seed=203, valid_seed=5, unit="T")
+    yield "dtype", dict(b3, dtype={"name": "int16", "as": "type"}, vals="int16", vform="array", seed=204, bc="zx",
+                        sub={"left": [[0, 0, 0], [1, 4, 3]], "core": [[1, 1, 1], [3, 3, 2]]})
+    yield "dtype", dict(g2, vals="int64", vform="typed", seed=205, bc="neumann", sub={"s": [[2, 0], [5, 1]]}, valid_seed=6, unit="A/m")
+    h2 = {"n": [3, 3], "cell": [0.5, 0.25], "p1": [0.0, 1.0], "flip": [0, 1], "dims": ["x", "y"], "units": ["m", "m"], "nvdim": 1,
+          "vdims": None, "exact": True, "seed": 21, "amp": "small"}
+    for name in ("int64", "int8", "bool", "float32", "complex128"):
+        yield "dtype-history", dict(h2, dtype={"name": name, "as": "type"}, vals=name, vform="array", obs0=list(GROUPS), steps=[
+            {"op": "values", "how": "view", "seed": 7, "obs": list(GROUPS)},
+            {"op": "scale", "via": "field", "factor": [3.0, 0.5], "ref": None, "obs": list(GROUPS)},
+            {"op": "values", "how": "setter", "seed": 8, "obs": list(GROUPS)},
+            {"op": "rotate90", "via": "field-rotate", "ax": [0, 1], "k": 1, "ref": None, "obs": list(GROUPS)},
+            {"op": "values", "how": "update", "seed": 9, "obs": list(reversed(GROUPS))},
+            {"op": "derive", "how": "translate", "vector": [0.5, -0.25], "obs": list(GROUPS)}])
 
 
 def _obs(rng, full=False):
@@ -117,8 +232,8 @@ def _obs(rng, full=False):
     return [GROUPS[i] for i in rng.permutation(len(GROUPS))[:k]]
 
 
-def _history(rng, ndim, nvdim, exact):
-    pr = _base(rng, ndim, nvdim, exact, narrow=True)
+def _history(rng, ndim, nvdim, exact, frac=False):
+    pr = _base(rng, ndim, nvdim, exact, narrow=True, frac=frac)
     n = pr["n"]
     if ndim >= 2 and rng.random() < 0.65:       # a pair of axes with equal n: in-place rotations keep the field consistent
         i, j = (int(q) for q in rng.choice(ndim, size=2, replace=False))
@@ -253,7 +368,13 @@ def _mesh(pr, shift=None):
     p1 = np.where(flip, hi, lo)
     p2 = np.where(flip, lo, hi)
     region = df.Region(p1=tuple(p1), p2=tuple(p2), dims=tuple(pr["dims"]), units=tuple(pr["units"]))
-    mesh = df.Mesh(region=region, n=tuple(int(k) for k in n))
+    kw = {}
+    if pr.get("bc"):            # boundary conditions / subregions of the mesh: no influence on any integral or mean
+        kw["bc"] = pr["bc"]
+    if pr.get("sub"):
+        kw["subregions"] = {name: df.Region(p1=tuple(lo + cell * np.array(i0)), p2=tuple(lo + cell * np.array(i1)), dims=tuple(pr["dims"]),
+                                            units=tuple(pr["units"])) for name, (i0, i1) in pr["sub"].items()}
+    mesh = df.Mesh(region=region, n=tuple(int(k) for k in n), **kw)
     return mesh, lo, hi, (hi - lo) / n
 
 
@@ -291,24 +412,142 @@ def _mesh_ok(m, keep, geo):
         return False
 
 
+def _close(a, b, ulps=64, scale=None):
+    """|a-b| <= ulps * eps(double) * max(scale, |a|, |b|) elementwise; moduli for complex numbers"""
+    a = np.asarray(a)
+    b = np.asarray(b)
+    wide = complex if (np.iscomplexobj(a) or np.iscomplexobj(b)) else float
+    a = a.astype(wide)
+    b = b.astype(wide)
+    m = np.maximum(np.abs(a), np.abs(b))
+    if scale is not None:
+        m = np.maximum(m, scale)
+    return bool(np.all(np.abs(a - b) <= ulps * np.finfo(float).eps * m))
+
+
 class Cmp:
-    def __init__(self, exact):
+    """== (exact variant, storage that holds the numbers exactly and is computed in double) or 64 ulp x g0, g0 = 1 unless the
+    field stores single / half precision numbers (then eps of that precision / eps of double)"""
+
+    def __init__(self, exact, store=None):
+        self.g0 = 1.0
         self.exact = exact
+        self.exact_ok = True
+        if store is not None:
+            self.retarget(store)
+
+    def retarget(self, store):
+        store = np.dtype(store)
+        self.g0 = 1.0
+        if store.kind in "fc":
+            self.g0 = max(1.0, float(np.finfo(store).eps / np.finfo(float).eps))
+        # complex division / extended or single precision arithmetic do not reproduce the double oracle bit for bit
+        self.exact_ok = store.kind in "biu" or store == np.dtype(float)
 
     def __call__(self, got, want, scale, g=1.0):
         got = np.asarray(got)
         want = np.asarray(want)
         if got.shape != want.shape:
             return False
-        if self.exact:
+        if self.exact and self.exact_ok:
             return bool(np.array_equal(got, want))
-        return ulp_close(got, want, 64 * g, scale)
+        return _close(got, want, 64 * g * self.g0, scale)
 
 
 def _values(rng, exact, shape):
     if exact:
         return rng.integers(-50, 51, size=shape).astype(float)
     return rng.uniform(-1, 1, size=shape) * 10.0 ** rng.uniform(-6, 6)
+
+
+def _draw(rng, exact, shape, vals=None, amp="small"):
+    """values representable in the numpy dtype `vals`, returned as float64 / complex128 (None: the legacy float values)"""
+    if vals is None:
+        return _values(rng, exact, shape)
+    dt = np.dtype(vals)
+    if dt.kind == "b":
+        return rng.integers(0, 2, size=shape).astype(float)
+    if dt.kind in "iu":
+        info = np.iinfo(dt)
+        if amp == "small":
+            lo, hi = max(info.min, -50), min(info.max, 50)
+        else:       # half the range: any two-term combination with coefficients +-1 is representable, narrow accumulation wraps
+            lo, hi = max(info.min // 2, -(1 << 40)), min(info.max // 2, 1 << 40)
+        return rng.integers(lo, hi + 1, size=shape).astype(float)
+    dec = 2 if dt.itemsize == 2 else 6
+    if dt.kind == "f":
+        v = rng.integers(-50, 51, size=shape).astype(float) if exact else rng.uniform(-1, 1, size=shape) * 10.0 ** rng.uniform(-dec, dec)
+        return v.astype(dt).astype(float)
+    if exact:
+        v = rng.integers(-50, 51, size=shape) + 1j * rng.integers(-50, 51, size=shape)
+    else:
+        v = (rng.uniform(-1, 1, size=shape) + 1j * rng.uniform(-1, 1, size=shape)) * 10.0 ** rng.uniform(-dec, dec)
+    return v.astype(dt).astype(complex)
+
+
+def _dtype_arg(d):
+    if d is None:
+        return None
+    name, how = d["name"], d["as"]
+    if how == "py":
+        return PYTYPES[name]
+    if how == "str":
+        return name
+    if how == "dtype":
+        return np.dtype(name)
+    return np.bool_ if name == "bool" else getattr(np, name)
+
+
+def _mk(mesh, F, pr, vdims=True):
+    """the field the case describes, holding the values F (float64 / complex128, representable in the dtype concerned):
+    dtype keyword, value form, valid / unit keywords"""
+    nv = F.shape[-1]
+    ndim = F.ndim - 1
+    kw = {"nvdim": nv}
+    if vdims:
+        kw["vdims"] = pr["vdims"]
+    d = pr.get("dtype")
+    if d is not None:
+        kw["dtype"] = _dtype_arg(d)
+    if pr.get("unit") is not None:
+        kw["unit"] = pr["unit"]
+    if pr.get("valid_seed") is not None:
+        mask = np.random.default_rng(pr["valid_seed"]).random(F.shape[:-1]) < 0.6
+        mask.flat[0] = True
+        kw["valid"] = mask
+    vals = pr.get("vals")
+    form = pr.get("vform", "array")
+    own = np.dtype(vals) if vals is not None else F.dtype                               # the data's own type
+    store = np.dtype(CANON.get(d["name"], d["name"])) if d is not None else F.dtype     # array of the requested dtype
+    if form == "array":
+        value = F.astype(store)
+    elif form == "wide":
+        value = F.copy()
+    elif form == "typed":
+        value = F.astype(own)
+    elif form == "list":
+        value = F.astype(own).tolist()
+    elif form == "const":       # F is constant over the cells
+        c = F[(0,) * ndim].astype(own).tolist()
+        value = c[0] if nv == 1 else tuple(c)
+    elif form == "callable":
+        lo = np.array(mesh.region.pmin, dtype=float)
+        n = np.array(F.shape[:-1])
+        cell = (np.array(mesh.region.pmax, dtype=float) - lo) / n
+        table = F.astype(own)
+
+        def value(point):
+            idx = np.clip(np.floor((np.atleast_1d(np.asarray(point, dtype=float)) - lo) / cell).astype(int), 0, n - 1)
+            return table[tuple(idx)]
+    else:
+        raise ValueError("unknown value form %r" % (form,))
+    return df.Field(mesh, value=value, **kw)
+
+
+def _stored(f):
+    """a copy of what the field stores, in float64 / complex128: the exact values every oracle starts from"""
+    a = np.asarray(f.array)
+    return np.array(a, dtype=complex if np.iscomplexobj(a) else float)
 
 
 def _observe(ctx, f, F, geo, cmp, rng, groups, sig=None, where=None):
@@ -392,7 +631,7 @@ def _observe(ctx, f, F, geo, cmp, rng, groups, sig=None, where=None):
                 if r or not isinstance(cu, df.Field):
                     rq(False, "C06.cumulative", "cumulative integral raised / no field", s="raises-" + type(cu).__name__, error=repr(cu))
                     continue
-                wantc = np.zeros(shape)
+                wantc = np.zeros(shape, dtype=F.dtype)
                 scc = np.zeros(shape)
                 for i in range(n[ax]):
                     sl = [slice(None)] * (ndim + 1)
@@ -481,8 +720,41 @@ def _observe(ctx, f, F, geo, cmp, rng, groups, sig=None, where=None):
             raise ValueError("unknown group %r" % (grp,))
 
 
+def _combination(rng, pr, shape, exact):
+    """F, G, a, b with a*F + b*G representable in the data class of the case"""
+    vals, amp = pr.get("vals"), pr.get("amp", "small")
+    if pr.get("vform") == "const":
+        cshape = (1,) * (len(shape) - 1) + (shape[-1],)
+        F = np.broadcast_to(_draw(rng, exact, cshape, vals, amp), shape).copy()
+        G = np.broadcast_to(_draw(rng, exact, cshape, vals, amp), shape).copy()
+    else:
+        F = _draw(rng, exact, shape, vals, amp)
+        G = _draw(rng, exact, shape, vals, amp)
+    dt = np.dtype(vals)
+    if dt.kind == "b":
+        G = G * (1 - F)         # disjoint supports: F + G is Boolean again
+        a, b = 1.0, 1.0
+    elif dt.kind == "u":
+        a, b = (float(rng.integers(1, 3)), float(rng.integers(1, 3))) if (amp == "small" and dt.itemsize > 1) else (1.0, 1.0)
+        if amp == "small" and dt.itemsize == 1:
+            a = float(rng.integers(1, 3))       # 2*50 + 50 <= 255
+    elif dt.kind == "i":
+        if amp == "small" and dt.itemsize > 1:
+            a, b = float(rng.integers(-4, 5)), float(rng.integers(1, 5))
+        else:
+            a, b = float(rng.choice([-1, 1])), 1.0
+    elif dt.kind == "f":
+        a, b = (float(rng.integers(-4, 5)), float(rng.integers(1, 5))) if exact else (float(rng.uniform(-3, 3)), float(rng.uniform(-3, 3)))
+    else:
+        if exact:
+            a, b = complex(rng.integers(-3, 4), rng.integers(-3, 4)), complex(rng.integers(1, 4), rng.integers(-3, 4))
+        else:
+            a, b = complex(*rng.uniform(-3, 3, size=2)), complex(*rng.uniform(-3, 3, size=2))
+    return F, G, a, b
+
+
 def check(kind, pr, ctx):
-    if kind == "history":
+    if kind in ("history", "dtype-history"):
         return _check_history(pr, ctx)
     n = list(pr["n"])
     ndim, nv, exact = len(n), pr["nvdim"], pr["exact"]
@@ -494,7 +766,11 @@ def check(kind, pr, ctx):
     edges = hi - lo
     rng = np.random.default_rng(pr["seed"])
     shape = (*n, nv)
-    if exact:
+    sig = None
+    if kind == "dtype":
+        sig = "dtype-%s-%s" % (pr["dtype"]["name"] if pr.get("dtype") else "none", pr["vals"])
+        F, G, a, b = _combination(rng, pr, shape, exact)
+    elif exact:
         F = rng.integers(-50, 51, size=shape).astype(float)
         G = rng.integers(-50, 51, size=shape).astype(float)
         a, b = float(rng.integers(-4, 5)), float(rng.integers(1, 5))
@@ -502,17 +778,23 @@ def check(kind, pr, ctx):
         F = rng.uniform(-1, 1, size=shape) * 10.0 ** rng.uniform(-6, 6)
         G = rng.uniform(-1, 1, size=shape) * 10.0 ** rng.uniform(-6, 6)
         a, b = float(rng.uniform(-3, 3)), float(rng.uniform(-3, 3))
-    kw = dict(nvdim=nv, vdims=pr["vdims"])
-    f = df.Field(mesh, value=F.copy(), **kw)
-    g_ = df.Field(mesh, value=G.copy(), **kw)
     H = a * F + b * G
-    h = df.Field(mesh, value=H.copy(), **kw)
-    cmp = Cmp(exact)
+    r, res = raises(Exception, lambda: (_mk(mesh, F, pr), _mk(mesh, G, pr), _mk(mesh, H, pr)))
+    if r:
+        if kind == "dtype":     # a dtype / value form the constructor refuses: nothing to integrate (C02's business)
+            ctx.trivial()
+            return
+        raise res
+    f, g_, h = res
+    # the oracle starts from what the fields actually store (== F, G, H for every representable value)
+    verbatim = np.array_equal(_stored(f), F) and np.array_equal(_stored(g_), G)
+    F, G, Hs = _stored(f), _stored(g_), _stored(h)
+    cmp = Cmp(exact, f.array.dtype)
     dV = float(np.prod(cell))
     absF = np.abs(F)
 
     # ---------------- every quantity once, on the fresh mesh
-    _observe(ctx, f, F, geo, cmp, rng, ["volume", "fubini", "dir", "cum", "mean1", "means", "attrs"])
+    _observe(ctx, f, F, geo, cmp, rng, ["volume", "fubini", "dir", "cum", "mean1", "means", "attrs"], sig=sig)
 
     # ---------------- linearity, per component
     ax = int(rng.integers(ndim))
@@ -524,23 +806,26 @@ def check(kind, pr, ctx):
              ("mean", lambda q: q.mean(), 1.0),
              ("mean-dirs", lambda q: _arr(q.mean(dirs2)), 1.0)]
     sc_lin = abs(a) * float(np.max(absF)) + abs(b) * float(np.max(np.abs(G)))
+    # the combination field holds a*F + b*G up to the rounding of its own storage (single precision fields)
+    lin_ok = verbatim and _close(Hs, a * F + b * G, cmp.g0 if cmp.g0 > 1 else 0, sc_lin)
     for name, op, meas in modes:
         r, res = raises(Exception, lambda: (op(f), op(g_), op(h)))
         if r:
             ctx.require(False, "C06.linearity", "raised", sig="raises-%s-%s" % (name, type(res).__name__), error=repr(res), mode=name)
             continue
-        ctx.require(np.shape(res[2]) == np.shape(res[0]) and ulp_close(res[2], a * res[0] + b * res[1], 64, sc_lin * meas), "C06.linearity", "not linear in the field", mode=name)
+        if lin_ok:
+            ctx.require(np.shape(res[2]) == np.shape(res[0]) and _close(res[2], a * np.asarray(res[0]) + b * np.asarray(res[1]), 64 * cmp.g0, sc_lin * meas),
+                        "C06.linearity", "not linear in the field", sig=sig, mode=name, a=a, b=b)
         okc = True
         for c in range(nv):
-            fc = df.Field(mesh, nvdim=1, value=np.ascontiguousarray(F[..., c:c + 1]))
-            rc, resc = raises(Exception, op, fc)
+            rc, resc = raises(Exception, lambda: op(_mk(mesh, np.ascontiguousarray(F[..., c:c + 1]), pr, vdims=False)))
             okc &= (not rc) and cmp(np.asarray(resc)[..., 0], np.asarray(res[0])[..., c], float(np.max(absF)) * meas)
-        ctx.require(okc, "C06.per_component", "component of the result != result of the component", mode=name)
+        ctx.require(okc, "C06.per_component", "component of the result != result of the component", sig=sig, mode=name)
 
     # ---------------- translation
     mesh_t, lo_t, hi_t, cell_t = _mesh(pr, pr["shift"])
     geo_t = Geo(dims, pr["units"], n, lo_t, hi_t)
-    ft = df.Field(mesh_t, value=F.copy(), **kw)
+    ft = _mk(mesh_t, F, pr)
     coord = np.maximum(np.maximum(np.abs(lo), np.abs(hi)), np.maximum(np.abs(lo_t), np.abs(hi_t)))
     gfac = 1.0 if exact else float(1.0 + np.max(coord / edges))
     okt = True
@@ -554,7 +839,7 @@ def check(kind, pr, ctx):
         keep = [i for i in range(ndim) if i != ax]
         if r or not _mesh_ok(res, keep, geo_t):
             okt, why = False, "result mesh not shifted with the field"
-    ctx.require(okt, "C06.translation", "result depends on the position of the mesh", mode=why, shift=pr["shift"])
+    ctx.require(okt, "C06.translation", "result depends on the position of the mesh", sig=sig, mode=why, shift=pr["shift"])
 
 
 def _arr(x):
@@ -572,27 +857,34 @@ class _Hist:
     """the objects a user would hold: the Region handed to the mesh, the mesh, two fields on it; plus the oracle's F and geo"""
 
     def __init__(self, pr):
+        self.pr = pr
         self.exact = pr["exact"]
         self.nv = pr["nvdim"]
-        self.kw = dict(nvdim=pr["nvdim"], vdims=pr["vdims"])
+        self.vals, self.amp = pr.get("vals"), pr.get("amp", "small")
         self.mesh, lo, hi, _ = _mesh(pr)
         self.region = self.mesh.region
         self.geo = Geo(pr["dims"], pr["units"], pr["n"], lo, hi)
         self.rng = np.random.default_rng(pr["seed"])
         shape = (*pr["n"], self.nv)
-        self.F = _values(self.rng, self.exact, shape)
-        self.f = df.Field(self.mesh, value=self.F.copy(), **self.kw)
-        self.g = df.Field(self.mesh, value=_values(self.rng, self.exact, shape), **self.kw)
+        self.f = _mk(self.mesh, _draw(self.rng, self.exact, shape, self.vals, self.amp), pr)
+        self.g = _mk(self.mesh, _draw(self.rng, self.exact, shape, self.vals, self.amp), pr)
         self.cmp = Cmp(self.exact)
+        self.reread()
+
+    def reread(self):
+        """the oracle's values: what the field stores now; the tolerance follows the storage"""
+        self.F = _stored(self.f)
+        self.cmp.retarget(self.f.array.dtype)
 
     def handle(self, via):
         return {"mesh": self.mesh, "field": self.f.mesh, "other-field": self.g.mesh, "region": self.region,
                 "field-region": self.f.mesh.region}[via]
 
     def rebuild(self, mesh, F):
-        self.mesh, self.region, self.F = mesh, mesh.region, F
-        self.f = df.Field(mesh, value=F.copy(), **self.kw)
-        self.g = df.Field(mesh, value=F[::-1].copy(), **self.kw)
+        self.mesh, self.region = mesh, mesh.region
+        self.f = _mk(mesh, F, self.pr)
+        self.g = _mk(mesh, F[::-1].copy(), self.pr)
+        self.reread()
 
 
 def _tup(x):
@@ -651,15 +943,15 @@ def _step(H, st):
         want = (st["names"], old.units) if st["what"] == "dims" else (old.dims, st["names"])
         return (H.geo.dims, H.geo.units) == (list(want[0]), list(want[1])) and np.array_equal(H.geo.lo, old.lo), "names read back"
     if op == "values":
-        new = _values(np.random.default_rng(st["seed"]), H.exact, H.F.shape)
+        new = _draw(np.random.default_rng(st["seed"]), H.exact, H.F.shape, H.vals, H.amp)
         if st["how"] == "view":
             H.f.array[...] = new
         elif st["how"] == "setter":
             H.f.array = new.copy()
         else:
             H.f.update_field_values(new.copy())
-        H.F = new
-        return np.array_equal(H.f.array, new), "values read back"
+        H.reread()
+        return np.array_equal(H.F, new), "values read back"
     if op == "derive":
         how = st["how"]
         F = H.F
@@ -694,12 +986,20 @@ def _step(H, st):
 def _check_history(pr, ctx):
     if int(np.prod(pr["n"])) == 1:
         ctx.trivial()
-    H = _Hist(pr)
-    _observe(ctx, H.f, H.F, H.geo, H.cmp, H.rng, pr["obs0"], sig="history-initial", where="before the first step")
+    tag = ""
+    if "vals" in pr:
+        tag = "-dtype-%s-%s" % (pr["dtype"]["name"] if pr.get("dtype") else "none", pr["vals"])
+        r, H = raises(Exception, _Hist, pr)
+        if r:       # a dtype / value form the constructor refuses (C02's business)
+            ctx.trivial()
+            return
+    else:
+        H = _Hist(pr)
+    _observe(ctx, H.f, H.F, H.geo, H.cmp, H.rng, pr["obs0"], sig="history-initial" + tag, where="before the first step")
     for k, st in enumerate(pr["steps"]):
         op = st["op"]
         label = "step %d: %s" % (k, {q: v for q, v in st.items() if q != "obs"})
-        sig = "history-after-" + op
+        sig = "history-after-" + op + tag
         H.old = None
         r, res = raises(Exception, _step, H, st)
         if r:
